@@ -18,7 +18,7 @@ RULE = ("Exhaustive: every string of length <=3 (thorough: <=4 for the mutation 
         "key, update with mapping / pair list / kwargs, setdefault on new/existing key), as cookie name, as cookie value and as redirect target "
         "(str and URL object), each response emitted through both server emulators; plus random op sequences (<=6 mutations) and random longer "
         "strings. Non-trivial = string containing CR, LF, NUL, ';', ',', '=', a quote, backslash or a non-ASCII character; distinct = (string, position).")
-RULE += ' Also: the mutations applied to the header mapping of a response object and of the response a middleware handler gets from next_call(), then sent; the emitted Location, with its percent-escapes undone, is the text asked for (escaped, not dropped); hostile text in the authority part of redirect targets, stored under the header names the library sets itself, cookie name with empty value / delete_cookie, and Cookie attributes assigned after construction (response.cookies[-1].value = ...). update() and |= with a Headers object as the source.'
+RULE += ' Also: the mutations applied to the header mapping of a response object and of the response a middleware handler gets from next_call(), then sent; the emitted Location, with its percent-escapes undone, is the text asked for (escaped, not dropped); hostile text in the authority part of redirect targets, stored under the header names the library sets itself, cookie name with empty value / delete_cookie, and Cookie attributes assigned after construction (response.cookies[-1].value = ...). update() and |= with a Headers object as the source. A queued cookie assigned (name / value) by another thread while its response is being sent, the switch placed between library lines.'
 ASSUMPTIONS = [
     "constructor-supplied headers and the cookie path/domain attributes are outside the statement's quantifier and are kept clean",
     "a name/value with code points above U+00FF may fail to be emitted (UnicodeEncodeError): nothing is smuggled, so that is tolerated",
@@ -286,6 +286,55 @@ def check_cookie(ctx, name, value, kw, where, via="set_cookie"):
             ctx.violation(f"cookie|comma-in-name-value-pair|{iface}", case, repr(line))
 
 
+def cookie_changed_while_rendering(ctx, pre, iface, field, hostile, max_points=40):
+    """a response object is being sent by one thread while another thread assigns its queued cookie's name / value (response.cookies
+    is public): whichever text ends up on the wire, it went through the escaping - a thread switch placed between any two library lines"""
+    from baize import asgi, wsgi
+    from vf import inflight
+    ns = wsgi if iface == "wsgi" else asgi
+    resp = ns.PlainTextResponse("x")
+    resp.set_cookie("sid", "plain")
+    cookie = resp.cookies[-1]
+
+    def send():
+        if iface == "wsgi":
+            r = drivers.run_wsgi(resp, drivers.to_environ(drivers.Req()))
+            return r.exc, None if r.headers is None else [(str(k), str(v)) for k, v in r.headers]
+        r = drivers.run_asgi(resp, drivers.to_scope(drivers.Req()))
+        return r.exc, None if r.headers is None else [(k.decode("latin-1"), v.decode("latin-1")) for k, v in r.headers]
+
+    def assign():
+        setattr(cookie, field, hostile)
+    pre.run(send)
+    n = pre.count
+    points = range(1, n + 1) if n <= max_points else sorted({1 + (i * (n - 1)) // (max_points - 1) for i in range(max_points)})
+    case = {"cookie_assigned_by_another_thread_while_the_response_is_sent": field, "text": hostile, "iface": iface}
+    for k in points:
+        cookie.name, cookie.value = "sid", "plain"
+        fired = []
+        exc, hdrs = pre.run(send, k, lambda f, line: (fired.append(f"{f}:{line}"), inflight._in_thread(assign)))
+        if not fired:
+            continue
+        ctx.mon("pre-empted-between-library-lines")
+        ctx.extra.setdefault("preemption_switch_locations", set()).add(fired[0])
+        c = dict(case, switch_after_library_line=k, switch_at=fired[0])
+        if exc is not None:
+            if not tolerated(exc) and not isinstance(exc, UnicodeEncodeError):
+                ctx.violation(f"cookie-assigned-while-sent|exception|{type(exc).__name__}|{iface}", c, repr(exc)[:200])
+                return
+            continue
+        if not hygiene(ctx, iface, hdrs, c):
+            return
+        lines = [v for kk, v in hdrs if kk.lower() == "set-cookie"]
+        if len(lines) != 1:
+            ctx.violation(f"cookie|{len(lines)}-set-cookie-lines-for-one-cookie|{iface}", c, repr(lines))
+            return
+        pair, attrs = split_set_cookie(lines[0])
+        if [a for a in attrs if not a.startswith("expires=")] != ["path=/", "samesite=lax"] or "," in pair:
+            ctx.violation(f"cookie|attribute-set-differs|assigned-while-sent|{iface}", c, f"line {lines[0]!r}")
+            return
+
+
 def check_emitted_header(ctx, key, value):
     """a value the mapping accepts (no CR/LF/NUL) must come out as a clean header line, however long or exotic it is
     (text above U+00FF cannot be written in Latin-1: refusing it at emission is fine, folding or re-encoding it with line breaks is not)"""
@@ -485,6 +534,16 @@ def run(ctx):
             check_cookie(ctx, "sid", hostile, {}, "value")
             check_cookie(ctx, hostile, "v", {}, "name")
         ctx.case(("many-chars",))
+    # --- a cookie assigned by another thread while its response is being sent
+    if ctx.shard < 4:
+        from vf import inflight
+        with inflight.preemptor() as pre:
+            for iface in ("wsgi", "asgi"):
+                for field, hostile in (("value", "v; Domain=evil.example"), ("value", "a\r\nSet-Cookie: admin=1"), ("name", "n\r\nSet-Cookie: x"), ("value", "a,b; Secure"))[ctx.shard % 2::2]:
+                    cookie_changed_while_rendering(ctx, pre, iface, field, hostile, max_points=400)
+                    ctx.case(("assigned-while-sent", iface, field, hostile))
+    else:
+        ctx.mon("pre-empted-between-library-lines", 0)
     # --- long / exotic but clean header values, stored and emitted
     for i in range(ctx.scale(400, 20_000)):
         unit = rng.choice(["\u4f60\u597d", "\u0100", "\xe9", "a", "=?utf-8?q?x?=", " ", "\t", ";", "\U0001f600"])
@@ -495,6 +554,13 @@ def run(ctx):
 
 
 def replay(ctx, case):
+    if "cookie_assigned_by_another_thread_while_the_response_is_sent" in case:
+        from vf import inflight
+        contracts.arm_list_headers()
+        with inflight.preemptor() as pre:
+            cookie_changed_while_rendering(ctx, pre, case["iface"], case["cookie_assigned_by_another_thread_while_the_response_is_sent"], case["text"], max_points=2000)
+        ctx.case(1)
+        return
     if "mapping_of" in case:
         check_held_mutation(ctx, case["path"], case["key"], case["value"], case["hostile"], case["mapping_of"])
         ctx.case(1)
